@@ -217,6 +217,9 @@ def spec_names(spec):
 def judge(rec, desc, do_check, names, vnames, tnames, tentative, family):
     """run one check inside the current context and apply the C04 oracle"""
     desc["rngkey"] = _CUR["rngkey"]
+    if desc.get("family") not in _SAMPLED and len(_SAMPLED) < 8:
+        _SAMPLED.add(desc.get("family"))
+        rec.sample({k: v for k, v in desc.items() if k != "tree"} | ({"tree": str(desc["tree"])[:200]} if "tree" in desc else {}))
     before, wb_before = observe()
     try:
         r = do_check()
@@ -530,6 +533,7 @@ SCENARIOS = (
 
 
 _CUR = {"rngkey": None}
+_SAMPLED = set()
 
 
 def run_case(rec, rng, only=None, rngkey=None):
@@ -597,7 +601,6 @@ def run_shard(rec, seed, shard, tier):
     for k in range(CASES[tier]):
         key = f"{seed}/C04/{shard['i']}/{k}"
         run_case(rec, random.Random(key), rngkey=key)
-    rec.sample({"family": "array", "note": "see violations/replays for full case shape; counters list scenario families"})
 
 
 def replay(rec, case):
